@@ -825,3 +825,50 @@ Theorem C10_h_roundtrip_molecule_nodes :
                         graph_to_mol g = Some (atoms, b2) /\ forall i j, bond_find i j b1 = bond_find i j b2.
 Proof. exact h_roundtrip_molecule_nodes. Qed.
 Print Assumptions C10_h_roundtrip_molecule_nodes.
+
+From SK Require Import proof.C10_HRound2 proof.C10_HRound2b.
+
+(** ROUND 6 — THE HYDROGEN ROUND TRIP ON GRAPHS THAT CONTAIN HYDROGEN ATOMS.  C10_h_roundtrip* above need a graph without any hydrogen
+    atom.  The clause only needs that no hydrogen atom is bonded to a non-hydrogen atom: molecular hydrogen, protons / hydrides and lone
+    hydrogens may be there (h_to_implicit keeps them since repairs 7497a0b / 3ba7a77).  Domain, written out: g is a networkx graph
+    ([gwfb]) in which every hydrogen atom is BARE — it carries no implicit hydrogens of its own (hcount <= 0 or absent) and every
+    neighbour of it is a hydrogen atom.  Then for ANY node list (None / [] = all atoms, a subset, duplicates, ids that are not atoms) and
+    EITHER mode (its = False / True), g' = h_to_implicit (h_to_explicit g nodes its) satisfies
+      - node_ids g' = node_ids g: the same nodes in the same order — every hydrogen h_to_explicit added (ids max id + 1 ...) is gone
+        again, every bare hydrogen of g is still there; no renumbering remains;
+      - at every node n of g the dictionary of g, except that at the atoms that were expanded the typesGH halves h_to_explicit lowered
+        stay lowered ([h_restore_gen]: reactant half for its=False, both halves for its=True; a node without typesGH is restored
+        exactly, and hcount itself IS restored);
+      - between every pair of nodes the bond dictionary of g up to [fin_edge]: identical for its=False; for its=True the final
+        normalize_edge_orders has turned a scalar order o into (o, o) and a missing standard_order into 0.
+    Adjacency ORDER is not claimed.  Outside the domain (a hydrogen bonded to a heavy atom) the graph is not restored — the hydrogen is
+    folded into its atom (proof/C10_HRound2.v h_roundtrip_bare_needed); the count and the heavy skeleton are (C10_h_total_*,
+    C10_h_*_skeleton). *)
+Theorem C10_h_roundtrip_bare_hydrogens :
+  forall (g : gr) (nodes : option (list N)) (its : bool), gwfb g = true ->
+    (forall n a, label g n = Some a -> el_is_H a = true ->
+       dflt (a_hc a) 0 <= 0 /\ forall w, adj g n w <> None -> is_H g w = true) ->
+    let g' := h_to_implicit (h_to_explicit g nodes its) in
+    node_ids g' = node_ids g /\
+    (forall n a, label g n = Some a ->
+       label g' n = Some (if mem n (exp_nodes g nodes) then h_restore_gen its a else a)) /\
+    (forall u v, adj g' u v = option_map (fin_edge its) (adj g u v)).
+Proof. exact h_roundtrip_bare. Qed.
+Print Assumptions C10_h_roundtrip_bare_hydrogens.
+
+(** ... for molecule graphs (no typesGH) and its=False every node dictionary and every bond dictionary is restored exactly, and the
+    molecule handed to RDKit (graph_to_mol) is the same: same atoms in order, same bond between every pair of atom indices. *)
+Theorem C10_h_roundtrip_bare_hydrogens_mol :
+  forall (g : gr) (nodes : option (list N)), gwfb g = true ->
+    (forall n a, label g n = Some a -> el_is_H a = true ->
+       dflt (a_hc a) 0 <= 0 /\ forall w, adj g n w <> None -> is_H g w = true) ->
+    no_tgh g = true ->
+    let g' := h_to_implicit (h_to_explicit g nodes false) in
+    (node_ids g' = node_ids g /\ (forall n, label g' n = label g n) /\ (forall u v, adj g' u v = adj g u v)) /\
+    ((forall u v x, adj g u v = Some x -> u <> v /\ match e_ord x with Some (OP _ _) => False | _ => True end) ->
+     exists atoms b1 b2, graph_to_mol g' = Some (atoms, b1) /\ graph_to_mol g = Some (atoms, b2) /\
+                         forall i j, bond_find i j b1 = bond_find i j b2).
+Proof.
+  intros g nodes Hw Hb Ht. split; [exact (h_roundtrip_bare_mol g nodes Hw Hb Ht)|exact (h_roundtrip_bare_molecule g nodes Hw Hb Ht)].
+Qed.
+Print Assumptions C10_h_roundtrip_bare_hydrogens_mol.
